@@ -322,48 +322,63 @@ def role_rules(cfg, R, tr):
                     R.instance('R4', c, mod.loc(n))
                     if src != attr:
                         R.violation('R4', c, mod.loc(n), 'self.%s is initialised from %s' % (attr, src))
-    # (v) each removed_/notable_ role reaches a placeholder of the header it belongs to
+    # (v) each removed_/notable_ role is rendered, with its reasons, in the section of the header that is headed for it
+    rendered_roles(cfg, R, ar)
+
+
+ROLE_WORDS = {'removed': ('unsupported', 'removed'), 'notable': ('notable',), 'zones': ('zone',), 'links': ('link',), 'policies': ('polic',)}
+
+
+def rendered_roles(cfg, R, ar):
+    """The two headers are rendered (E-SEQ, acv/genrender.py) from a database whose removed / notable collections hold
+    tagged names and reasons.  Every tagged name must come out, on one line with all its reasons, inside the section whose
+    heading names its role (Unsupported/Removed or Notable; zones, links or policies), the count in that heading must be
+    the number of names, and no tag may come out under a heading of another role."""
+    from .genrender import Rendering, tagged_db, sections
     want = {'ZoneInfosGenerator.generate_infos_h': ['removed_zones', 'notable_zones', 'removed_links', 'notable_links'],
             'ZonePoliciesGenerator.generate_policies_h': ['removed_policies', 'notable_policies']}
+    rd = Rendering(cfg)
+    db = tagged_db('extended')
     for fn_name, attrs in want.items():
         f = ar.fn(fn_name)
+        cls, meth = fn_name.split('.')
+        text = rd.render(cls, meth, db)
+        secs = sections(text)
         for attr in attrs:
             c = 'argenerator.%s:%s' % (fn_name, attr)
             R.instance('R4', c, f.loc)
-            msg = reaches_placeholder(ar, f, attr)
+            cat, kind = attr.split('_')
+            heads = [h for h in secs if any(w in h.lower() for w in ROLE_WORDS[cat]) and any(w in h.lower() for w in ROLE_WORDS[kind])]
+            if len(heads) != 1:
+                R.violation('R4', c, f.loc, 'the rendered header has %s section headed for the %s %s (headings: %s)' % ('no' if not heads else 'more than one', cat, kind, sorted(secs)))
+                continue
+            count, lines = secs[heads[0]]
+            names = db[attr]
+            msg = None
+            def named(nm, ln):
+                return re.search(re.escape(nm) + r'(?![\w/-])', ln) is not None
+            for nm, reasons in names.items():
+                hit = [ln for ln in lines if named(nm, ln)]
+                if not hit:
+                    elsewhere = [h for h, (_n, ls) in secs.items() if h != heads[0] and any(w in h.lower() for w in ('unsupported', 'removed', 'notable'))
+                                 and any(named(nm, ln) for ln in ls)]
+                    msg = 'self.%s is never rendered: %s (tagged %s) does not appear under "%s"%s' % (
+                        attr, nm, reasons, heads[0], (', it appears under "%s"' % elsewhere[0]) if elsewhere else '')
+                    break
+                if not all(r_ in hit[0] for r_ in reasons):
+                    msg = 'the entry of %s under "%s" does not carry its reasons %s: %r' % (nm, heads[0], reasons, hit[0])
+                    break
+            if msg is None and count != len(names):
+                msg = 'the heading "%s" counts %d, self.%s holds %d' % (heads[0], count, attr, len(names))
+            if msg is None:
+                for other in ('removed_zones', 'notable_zones', 'removed_links', 'notable_links', 'removed_policies', 'notable_policies'):
+                    if other == attr:
+                        continue
+                    for nm, reasons in db[other].items():
+                        if any(r_ in ln for ln in lines for r_ in reasons):
+                            msg = 'the section "%s" carries %s of self.%s' % (heads[0], reasons, other)
             if msg:
                 R.violation('R4', c, f.loc, msg)
-
-
-def reaches_placeholder(mod, f, attr):
-    """for k, reasons in sorted(self.<attr>.items()): acc += ITEM.format(...reasons...) ; FILE.format(..., kw=acc) and '{kw}' in FILE."""
-    acc = None
-    for n in ast.walk(f.node):
-        if isinstance(n, ast.For) and ('self.%s' % attr) in ast.unparse(n.iter):
-            for s in n.body:
-                if isinstance(s, ast.AugAssign) and isinstance(s.target, ast.Name):
-                    txt = ast.unparse(s.value)
-                    loopvars = [x.id for x in ast.walk(n.target) if isinstance(x, ast.Name)]
-                    if all(v in txt for v in loopvars):
-                        acc = s.target.id
-                    else:
-                        return 'the loop over self.%s does not render both the name and its reasons' % attr
-    if acc is None:
-        return 'self.%s is never rendered' % attr
-    for n in ast.walk(f.node):
-        if isinstance(n, ast.Return) and isinstance(n.value, ast.Call) and isinstance(n.value.func, ast.Attribute) and n.value.func.attr == 'format':
-            tmpl = n.value.func.value
-            tname = tmpl.attr if isinstance(tmpl, ast.Attribute) else None
-            kws = [k.arg for k in n.value.keywords if isinstance(k.value, ast.Name) and k.value.id == acc]
-            if not kws:
-                return 'the rendered %s items (%s) are not passed to the file template' % (attr, acc)
-            tv = mod.class_consts.get('%s.%s' % (f.cls, tname))
-            if not (isinstance(tv, ast.Constant) and isinstance(tv.value, str)):
-                return 'file template %s not found' % tname
-            if ('{%s}' % kws[0]) not in tv.value:
-                return 'placeholder {%s} is missing from %s: the %s list is computed but not written' % (kws[0], tname, attr)
-            return None
-    return 'no file template is rendered'
 
 
 # ---------------------------------------------------------------------------------------------------------
@@ -497,8 +512,10 @@ def lint_rules(cfg, R):
                     continue
                 else:
                     nops = 1
-                    if isinstance(n.right, ast.Name) and nspec > 1:
-                        continue     # a tuple-valued variable
+                    scalar = isinstance(n.right, (ast.Constant, ast.JoinedStr)) or \
+                        (isinstance(n.right, ast.Call) and isinstance(n.right.func, ast.Name) and n.right.func.id in ('len', 'str', 'int', 'repr', 'abs', 'float'))
+                    if nspec > 1 and not scalar:
+                        continue     # a name, attribute, subscript or call that may hold a tuple
                 if nspec != nops:
                     R.violation('R7', c, m.loc(n), 'format string has %d conversion specifier(s) but %d operand(s)' % (nspec, nops))
 
@@ -541,16 +558,28 @@ def extractor_rules(cfg, R):
             if not records_name(body):
                 R.violation('R8', c, ex.loc(n), 'a link name that occurs more than once is dropped with only a counter increment')
     f = ex.fn('Extractor._parse_zone_file')
-    chains = [n for n in ast.walk(f.node) if isinstance(n, ast.If) and 'tag' in ast.unparse(n.test)]
-    top = None
-    for n in chains:
-        if "tag == 'Rule'" in ast.unparse(n.test):
-            top = n
-    if top is None:
+    # the classification chain: the if/elif chain whose arms store lines with _add_item(self.<kind>_lines, ...)
+    def chain_of(n):
+        arms = [n]
+        while arms[-1].orelse and len(arms[-1].orelse) == 1 and isinstance(arms[-1].orelse[0], ast.If):
+            arms.append(arms[-1].orelse[0])
+        return arms
+
+    def stores_line(body):
+        return any(isinstance(x, ast.Call) and ast.unparse(x.func) == '_add_item' and x.args and ast.unparse(x.args[0]).endswith('_lines')
+                   for s in body for x in ast.walk(s))
+    inner = set()
+    best = None
+    for n in ast.walk(f.node):
+        if isinstance(n, ast.If) and id(n) not in inner:
+            arms = chain_of(n)
+            inner.update(id(a) for a in arms[1:])
+            k = sum(1 for a in arms if stores_line(a.body))
+            if k >= 2 and (best is None or k > best[0]):
+                best = (k, arms)
+    if best is None:
         raise AnalysisError('%s: line classification chain not found' % f.loc)
-    cur = top
-    while cur.orelse and len(cur.orelse) == 1 and isinstance(cur.orelse[0], ast.If):
-        cur = cur.orelse[0]
+    top, cur = best[1][0], best[1][-1]
     c = 'tzdb.extractor.Extractor._parse_zone_file:unrecognised-line'
     R.instance('R8', c, ex.loc(top))
     if not cur.orelse or not records_name(cur.orelse):
@@ -599,117 +628,118 @@ def _diff(a, b):
     return a[1] - b[1]
 
 
-def marking_rules(R, tr):
-    R.rule('R9', 'a rule an era can select is marked used: the marking interval is the closed year interval [era begin, era until] '
-                 'under the comparator find_matching_rules applies', floor=3)
-    g = tr.fn('find_matching_rules')
-    params = [a.arg for a in g.node.args.args]
-    if len(params) != 3:
-        raise AnalysisError('%s: find_matching_rules no longer takes (rules, era_from, era_until)' % g.loc)
-    lo_p, hi_p = params[1], params[2]
-    upper_excl = lower_incl = None
-    for n in ast.walk(g.node):
-        if isinstance(n, ast.Compare) and len(n.ops) == 1:
-            l, r, op = ast.unparse(n.left), ast.unparse(n.comparators[0]), n.ops[0]
-            if isinstance(op, (ast.Gt, ast.GtE)):
-                l, r = r, l
-                op = ast.Lt() if isinstance(op, ast.Gt) else ast.LtE()
-            if not isinstance(op, (ast.Lt, ast.LtE)):
-                continue
-            if 'fromYear' in l and r == hi_p:
-                upper_excl = isinstance(op, ast.Lt)
-            if l == lo_p and 'toYear' in r:
-                lower_incl = isinstance(op, ast.LtE)
-    c = 'tzdb.transformer.find_matching_rules:overlap'
-    R.instance('R9', c, g.loc, 'fromYear %s era_until and era_from %s toYear' % ('<' if upper_excl else '<=', '<=' if lower_incl else '<'))
-    if upper_excl is None or lower_incl is None:
-        R.violation('R9', c, g.loc, 'the overlap test is not (rule.fromYear < or <= era_until) and (era_from <= or < rule.toYear)')
-        return
-    f = tr.fn('Transformer._mark_rules_used_by_zones')
-    era_loops = [n for n in ast.walk(f.node) if isinstance(n, ast.For) and isinstance(n.target, ast.Name) and n.target.id == 'era']
-    if len(era_loops) != 1:
-        raise AnalysisError('%s: expected one `for era in eras` loop in _mark_rules_used_by_zones' % f.loc)
-    loop = era_loops[0]
-    env = {}
-    calls = []
-    carried = {}      # loop-carried assignments after the call (begin_year = era['untilYear'])
-    for s in loop.body:
-        if isinstance(s, ast.Assign) and len(s.targets) == 1 and isinstance(s.targets[0], ast.Name):
-            hit = [x for x in ast.walk(s.value) if isinstance(x, ast.Call) and ast.unparse(x.func) == 'find_matching_rules']
-            if hit:
-                calls.append((hit[0], dict(env)))
-                continue
-            (carried if calls else env)[s.targets[0].id] = _lin(s.value, env if not calls else {**env, **carried})
-    if len(calls) != 1 or len(calls[0][0].args) != 3:
-        raise AnalysisError('%s: expected one find_matching_rules(rules, from, until) call in the era loop' % f.loc)
-    call, cenv = calls[0]
-    c = 'tzdb.transformer.Transformer._mark_rules_used_by_zones:until'
-    R.instance('R9', c, tr.loc(call))
-    hi = _lin(call.args[2], cenv)
-    atoms = [k for k in hi[0] if "era['untilYear']" in k]
-    if len(hi[0]) != 1 or not atoms or hi[0][atoms[0]] != 1:
-        R.violation('R9', c, tr.loc(call), 'the upper bound %s is not the era\'s UNTIL year plus a constant' % ast.unparse(call.args[2]))
-    else:
-        need = 1 if upper_excl else 0
-        if hi[1] < need:
-            R.violation('R9', c, tr.loc(call), 'rules are matched against [.., %s) with the test fromYear %s era_until: a rule whose FROM year is the '
-                        'era\'s UNTIL year is not marked, and is deleted as unused although the era (which ends inside that year) selects it'
-                        % (ast.unparse(call.args[2]), '<' if upper_excl else '<='))
-    c = 'tzdb.transformer.Transformer._mark_rules_used_by_zones:begin'
-    R.instance('R9', c, tr.loc(call))
-    if not (isinstance(call.args[1], ast.Name) and call.args[1].id in carried):
-        R.violation('R9', c, tr.loc(call), 'the lower bound %s is not the loop-carried begin year' % ast.unparse(call.args[1]))
-    else:
-        nxt = carried[call.args[1].id]
-        ok = len(nxt[0]) == 1 and "era['untilYear']" in next(iter(nxt[0])) and nxt[1] <= (0 if lower_incl else -1)
-        if not ok:
-            R.violation('R9', c, tr.loc(call), 'the next era is matched from %s + %d with the test era_from %s toYear: a rule still in effect in the '
-                        'year the previous era ends is not marked' % (next(iter(nxt[0]), '?'), nxt[1], '<=' if lower_incl else '<'))
-        first = [s for s in ast.walk(f.node) if isinstance(s, ast.Assign) and isinstance(s.targets[0], ast.Name)
-                 and s.targets[0].id == call.args[1].id and s not in loop.body]
-        for s in first:
-            v = _lin(s.value, {})
-            if 'self.start_year' in v[0] and v[1] > (-1 if lower_incl else -2):
-                R.violation('R9', c, tr.loc(s), 'the first era is matched from start_year %+d: the year before start_year is needed for the most recent prior transition' % v[1])
+def transformer_object(tr, zones_map, rules_map, **over):
+    """a Transformer built by interpreting its own __init__ on the given maps (parameters are matched by name)"""
+    from .aeval import AEval, AObj
+    f = tr.fn('Transformer.__init__')
+    vals = dict(zones_map=zones_map, rules_map=rules_map, links_map={}, scope='extended', start_year=2000, until_year=2050,
+                until_at_granularity=60, offset_granularity=60, strict=True)
+    vals.update(over)
+    args = []
+    for p in f.params[1:]:
+        if p not in vals:
+            raise AnalysisError('%s: Transformer.__init__ has a parameter %s the abstraction does not know' % (f.loc, p))
+        args.append(vals[p])
+    me = AObj({}, oid='self', cls='Transformer')
+    AEval(module=tr).call_function('Transformer.__init__', args, recv=me)
+    return me
 
 
-def prior_rules_rule(R, tr):
-    """find_latest_prior_rules(rules, year) keeps, for the era that starts in `year`, the rules in effect just before it:
-    rules whose TO year lies strictly before `year`, and among them those with the latest (TO year, month).  A rule that
-    still runs in `year` is found by find_matching_rules; counting it here as "prior" displaces the real prior rule,
-    which is then deleted as unused."""
-    f = tr.fn('find_latest_prior_rules')
-    c = 'tzdb.transformer.find_latest_prior_rules'
-    ypar = f.node.args.args[1].arg if len(f.node.args.args) >= 2 else None
-    bound = {}
-    for x in ast.walk(f.node):
-        if isinstance(x, ast.Assign) and isinstance(x.targets[0], ast.Name) and isinstance(x.value, ast.Subscript):
-            bound[x.targets[0].id] = ast.unparse(x.value.slice).strip("'\"")
-    outer = inner = None
-    for x in ast.walk(f.node):
-        if isinstance(x, ast.If) and isinstance(x.test, ast.Compare) and len(x.test.ops) == 1:
-            l, r = ast.unparse(x.test.left), ast.unparse(x.test.comparators[0])
-            if bound.get(l) == 'toYear' and r == ypar:
-                outer = ('l', x.test.ops[0])
-            elif bound.get(r) == 'toYear' and l == ypar:
-                outer = ('r', x.test.ops[0])
-            elif 'candidate' in r and 'date' in l and isinstance(x.test.ops[0], (ast.Gt, ast.GtE, ast.Lt, ast.LtE)) and inner is None:
-                inner = x.test.ops[0]
-    R.instance('R9', c + ':before-year', f.loc)
-    strict = outer is not None and ((outer[0] == 'l' and isinstance(outer[1], ast.Lt)) or (outer[0] == 'r' and isinstance(outer[1], ast.Gt)))
-    if not strict:
-        R.violation('R9', c + ':before-year', f.loc, 'prior rules are not selected by "rule TO year < %s" (found: %s): a rule that ends in the era\'s first year counts as prior, '
-                    'replaces the rule really in effect before the era, and that rule is then removed as unused' % (ypar, type(outer[1]).__name__ if outer else 'no such test'))
-    R.instance('R9', c + ':latest', f.loc)
-    if not isinstance(inner, ast.Gt):
-        R.violation('R9', c + ':latest', f.loc, 'the candidate is not replaced by a strictly later (TO year, month) date')
+QUIET = {k: (lambda ev, recv, args: None) for k in ('_add_reason', 'logging.info', 'logging.error', 'logging.warning', 'info', 'error',
+                                                     '_print_removed_map', '_merge_reasons')}
+
+
+def marking_rules(R, tr, thorough=False):
+    """R9 by interpretation (E-SEQ): _mark_rules_used_by_zones followed by _remove_rules_unused is evaluated on small zones
+    (one to three eras, with and without a policy) and policies of one or two rules whose FROM/TO years sit on and around
+    the era boundaries.  A rule must survive when an era selects it: its [FROM, TO] years meet the closed interval
+    [year the era begins, year the era ends] (eras begin and end inside a year), or it is one of the latest rules that
+    ended before the era began and no surviving rule started before the era (so the offset in force when the era begins
+    comes from it)."""
+    from .aeval import AEval, Raised
+    R.rule('R9', 'a rule an era can select is not removed as unused: rules whose years meet the closed year interval of the era, and the '
+                 'latest rules ended before it, survive _mark_rules_used_by_zones + _remove_rules_unused (interpreted on small zones)', floor=3)
+    mf = tr.fn('Transformer._mark_rules_used_by_zones')
+    tr.fn('Transformer._remove_rules_unused')
+    START, UNTIL = 2000, 2050
+    shapes = {
+        'one-era': [('P', 9999)],
+        'two-eras': [('P', 2010), ('P', 9999)],
+        'fixed-then-policy': [('-', 2010), ('P', 9999)],
+        'policy-fixed-policy': [('P', 2010), (':', 2020), ('P', 9999)],
+        'two-policies': [('Q', 2010), ('P', 9999)],
+        'policy-then-other': [('P', 2010), ('Q', 9999)],
+        'policy-then-fixed': [('P', 2010), ('-', 9999)],
+    }
+    years = [1998, 1999, 2000, 2009, 2010, 2011, 2020, 2021] if thorough else [1998, 1999, 2000, 2010, 2011, 2020]
+    pool = [(a, b, m) for a in years for b in years + [9999] if a <= b for m in (3, 10)]
+    sets = [[x] for x in pool] + [[x, y] for i, x in enumerate(pool) for y in pool[i:]]
+    if not thorough:
+        sets = [s for s in sets if len(s) == 1 or s[0][2] == 3]
+    base = 'tzdb.transformer.Transformer._mark_rules_used_by_zones'
+    seen = {}
+    nruns = 0
+
+    def required(eras, rules):
+        need = {}
+        begin = START - 1
+        for pol, until in eras:
+            if pol == 'P':
+                hi = until if until <= UNTIL else UNTIL - 1
+                over = [i for i, (a, b, m) in enumerate(rules) if a <= hi and b >= begin]
+                for i in over:
+                    a, b, m = rules[i]
+                    need.setdefault(i, ':until' if a == hi else ':begin' if b == begin else ':overlap')
+                if not any(rules[i][0] < begin for i in over):
+                    prior = [(b, m) for a, b, m in rules if b < begin]
+                    if prior:
+                        top = max(prior)
+                        for i, (a, b, m) in enumerate(rules):
+                            if (b, m) == top:
+                                need.setdefault(i, ':prior')
+            begin = until
+        return need
+
+    for shape, eras in shapes.items():
+        for k in (':until', ':begin', ':overlap', ':prior'):
+            R.instance('R9', base + k + '@' + shape, mf.loc)
+        for rs in sets:
+            zones_map = {'Z': [{'rules': pol, 'untilYear': u, 'untilMonth': 6, 'untilDay': 15, 'untilSeconds': 0, 'untilTimeSuffix': 'w'} for pol, u in eras]}
+            mk = lambda a, b, m: {'fromYear': a, 'toYear': b, 'inMonth': m, 'onDay': '1', 'atSeconds': 7200, 'atTimeSuffix': 'w', 'deltaSeconds': 3600, 'letter': 'D'}
+            prules = [mk(*x) for x in rs]
+            rules_map = {'P': prules, 'Q': [mk(1990, 9999, 4)]}
+            try:
+                me = transformer_object(tr, zones_map, rules_map, start_year=START, until_year=UNTIL)
+                ev = AEval(module=tr, intrinsics=QUIET, max_steps=100000)
+                out = ev.call_function('Transformer._mark_rules_used_by_zones', [zones_map, rules_map], recv=me)
+                rm = out[1] if isinstance(out, (tuple, list)) and len(out) == 2 else rules_map
+                kept = ev.call_function('Transformer._remove_rules_unused', [rm], recv=me)
+            except Raised as r_:
+                raise AnalysisError('%s: interpretation raised %s' % (mf.loc, r_.what))
+            except (KeyError, IndexError, TypeError) as x_:
+                raise AnalysisError('%s: the abstraction of a zone/rule record lacks %r' % (mf.loc, x_))
+            nruns += 1
+            if not isinstance(kept, dict):
+                raise AnalysisError('%s: _remove_rules_unused does not return the policy map' % mf.loc)
+            left = kept.get('P') or []
+            for i, why in required(eras, rs).items():
+                if not any(x is prules[i] for x in left):
+                    key = (shape, why)
+                    if key not in seen:
+                        seen[key] = True
+                        a, b, m = rs[i]
+                        txt = {':until': 'starts in the year the era ends', ':begin': 'ends in the year the era begins', ':overlap': 'runs during the era',
+                               ':prior': 'is the latest rule before the era begins and no surviving rule started earlier'}[why]
+                        R.violation('R9', base + why + '@' + shape, mf.loc,
+                                    'zone with eras %s (start_year %d, until_year %d), policy P = %s: rule FROM %d TO %d IN month %d %s, but it is removed as unused'
+                                    % (['%s until %d' % e for e in eras], START, UNTIL, [('%d-%d/%d' % x) for x in rs], a, b, m, txt))
+    R.analysed['R9 interpreted zone/policy combinations'] = nruns
 
 
 def run(cfg):
     R = Report('C03', cfg)
     tr = py.load(cfg, TR)
-    marking_rules(R, tr)
-    prior_rules_rule(R, tr)
+    marking_rules(R, tr, thorough=(cfg.tier == 'thorough'))
     accounting_rules(R, tr)
     role_rules(cfg, R, tr)
     chain_rules(R, tr)
@@ -743,8 +773,8 @@ SELFTEST = [
     dict(id='fstring-percent', file='tools/tzdb/transformer.py', find="""                        f"invalid AT time '{at_time}'")""", replace="""                        f"invalid AT time '{at_time}'" % at_time)""", rule='R7'),
     dict(id='format-arity', file='tools/tzdb/transformer.py', find="""                    "Found %d transitions in year/month '%04d-%02d'" % removal)""", replace="""                    "Found %d transitions in year/month '%04d-%02d'" % (removal[0], removal[1]))""", rule='R7'),
     dict(id='prior-rules-include-the-era-year', file='tools/tzdb/transformer.py', unique=False, nth=0, find='        if rule_year < year:\n            rule_date = (rule_year, rule_month)\n            if rule_date > candidate_date:',
-         replace='        if rule_year <= year:\n            rule_date = (rule_year, rule_month)\n            if rule_date > candidate_date:', rule='R9', construct='before-year'),
-    dict(id='prior-rules-keep-earliest', file='tools/tzdb/transformer.py', find='            if rule_date > candidate_date:', replace='            if rule_date >= candidate_date:', rule='R9', construct='latest'),
+         replace='        if rule_year <= year:\n            rule_date = (rule_year, rule_month)\n            if rule_date > candidate_date:', rule='R9', construct=':prior'),
+    dict(id='prior-rules-keep-earliest', file='tools/tzdb/transformer.py', find='            if rule_date > candidate_date:', replace='            if rule_date >= candidate_date:', rule='R9', construct=':prior'),
     dict(id='marking-stops-before-until-year', file='tools/tzdb/transformer.py',
          find='                matching_rules = find_matching_rules(rules, begin_year,\n                                                     until_year + 1)',
          replace='                matching_rules = find_matching_rules(rules, begin_year,\n                                                     until_year)', rule='R9', construct=':until'),
